@@ -236,6 +236,32 @@ def handle (line : String) : String :=
       SaParen.render opName "BETWEEN" "AND" p ++
         s!" | saok={b01 (SaParen.saOk saPolicy o)} regroup={b01 re}"
     | _ => "bad-line"
+  | ["D", pk, nl, serial] =>
+    let c : ColDef := ⟨pk == "1", if nl == "t" then some true else if nl == "f" then some false else none, serial == "1"⟩
+    let s := saSpec c
+    s!"notnull={b01 s.notNull} pk={b01 s.pk}"
+  | ["C", w, g, h, o, l, f] =>
+    -- clause skeleton of a select with aggregates: which clauses does the rendered statement have
+    let one : Render.Expr := .cmp .eq (.col 0) (.int 1)
+    let q : GSelect :=
+      { targets := [.countStar], from_ := .table 0
+        where_ := if w == "1" then some one else none
+        groupBy := if g == "1" then [.col 0] else []
+        having := if h == "1" then some (.countStar, .gt, 1) else none
+        order := if o == "1" then [⟨.col 0, "", ""⟩] else []
+        limit := if l == "1" then some 1 else none
+        offset := if f == "1" then some 1 else none }
+    let r := saGSelect q
+    s!"where={b01 r.where_.isSome} group={b01 (!r.groupBy.isEmpty)} having={b01 r.having.isSome} order={b01 (!r.order.isEmpty)} limit={b01 r.limit.isSome} offset={b01 r.offset.isSome}"
+  | "JJ" :: rest =>
+    -- a chain of two explicit joins: join types separated by `|`
+    let parts := (" ".intercalate rest).splitOn " | "
+    let f : From := parts.foldl (fun acc jt => .join acc jt false 1 (some oneEqOne)) (.table 0)
+    if raisesFrom f then "!NotImplementedError" else
+      let rec kws : From → List String
+        | .join l jt _ _ _ => kws l ++ [jt]
+        | _ => []
+      " | ".intercalate (kws (saFrom f))
   | "J" :: on :: jt =>
     let jt := " ".intercalate jt
     match saKind jt with
